@@ -27,6 +27,10 @@ fn core() -> &'static Vec<Prog> {
                     v.push(Prog { nlocs: 1, pre: vec![], threads: vec![vec![aw(0, lo), ld(0, lo)], vec![st(0, 1, so)], vec![st(0, 2, so)]] });
                     // two waiters in sequence (a chain)
                     v.push(Prog { nlocs: 2, pre: vec![], threads: vec![vec![st(0, 1, so)], vec![aw(0, lo), st(1, 2, so)], vec![aw(1, lo), ld(0, Rlx)]] });
+                    // two awaits in sequence in a child, both flags written by main, which then waits in join: the second
+                    // and later yields happen while no other thread can run
+                    v.push(Prog { nlocs: 2, pre: vec![], threads: vec![vec![st(0, 1, so), st(1, 1, so)], vec![aw(0, lo), aw(1, lo)]] });
+                    v.push(Prog { nlocs: 2, pre: vec![], threads: vec![vec![], vec![aw(0, lo), aw(1, lo), ld(0, Rlx)], vec![st(1, 1, so), st(0, 1, so)]] });
                     // the waiter is a child, main writes after another access
                     v.push(Prog { nlocs: 2, pre: vec![], threads: vec![vec![ld(1, Rlx), st(0, 1, so)], vec![aw(0, lo), st(1, 7, Rlx)]] });
                 }
